@@ -526,7 +526,7 @@ def _nt2(c):
 
 
 SUBS = [
-    Sub("arguments", sub_phase1, st_p1, 1400, 50000, nontrivial=lambda c: True),
+    Sub("arguments", sub_phase1, st_p1, 3000, 50000, nontrivial=lambda c: True),
     Sub("plots", sub_plots, st_plots, 40, 1500, nontrivial=lambda c: True, shards_quick=4),
     Sub("derived", sub_phase2, st_p2, 2500, 80000, nontrivial=_nt2, shards_quick=8),
     Sub("constructor", sub_ctor_alias, st_p2, 400, 15000, nontrivial=_nt2),
